@@ -37,6 +37,10 @@ func NewVM() *Context {
 }
 
 // RunExpr 注: 最后不一定叫这个名字，这个函数作用是，即使当前vm被占用，也能执行语句，是为了指令hack而服务的
+// maxParseDepth 解析器的递归深度上限(parseExprWrap 的嵌套层数)。一层方括号约 56 层，一条语句约 7 层:
+// 8192 条指令以内的程序用不到 6 万层；10 万层约占 70 MB 栈，远低于 Go 的 1 GB 上限
+const maxParseDepth = 100000
+
 func (ctx *Context) RunExpr(value string, useUpCtxLocal bool) (*VMValue, error) {
 	val := NewFunctionValRaw(&FunctionData{
 		Expr:      value,
@@ -102,6 +106,10 @@ func (ctx *Context) Parse(value string) error {
 			if r := recover(); r != nil {
 				if r == errMaxExprCnt {
 					err = errors.New("解析算力上限: " + errMaxExprCnt.Error())
+					return
+				}
+				if r == errMaxParseDepth {
+					err = errors.New("嵌套层数过多: " + errMaxParseDepth.Error())
 					return
 				}
 				panic(r)
